@@ -131,6 +131,24 @@ def sx_mkset(ctor, *args):
     return ctor(*args)
 
 
+HOST_MODULES = ('errno', 'signal', 'socket', 'os', 'sys', 'stat', 'fcntl', 'resource', 'platform', 'locale', 'time')
+host_provider = [None]      # C18 installs a function name -> proxy module here (before the repo is imported)
+
+
+def sx_host(name):
+    import importlib
+    real = importlib.import_module(name)
+    if host_provider[0] is not None and name in HOST_MODULES:
+        return host_provider[0](name, real)
+    return real
+
+
+def sx_host_attr(name, attr):
+    return getattr(sx_host(name), attr)
+
+
+builtins.__sx_host__ = sx_host
+builtins.__sx_host_attr__ = sx_host_attr
 builtins.__sx_in__ = sx_in
 builtins.__sx_mkset__ = sx_mkset
 builtins.__sx_cond_append__ = sx_cond_append
@@ -199,6 +217,28 @@ class Rewriter(ast.NodeTransformer):
                        args=[g.iter, ast.Lambda(args=arg, body=g.ifs[0]), ast.Lambda(args=arg, body=node.elt)],
                        keywords=[])
         return ast.copy_location(new, node)
+
+    def visit_Import(self, node):
+        # `import errno` in a repo module binds the (possibly proxied) host module: host reads become observable
+        if len(node.names) == 1 and node.names[0].name in HOST_MODULES:
+            a = node.names[0]
+            new = ast.Assign(targets=[ast.Name(id=a.asname or a.name, ctx=ast.Store())],
+                             value=ast.Call(func=ast.Name(id='__sx_host__', ctx=ast.Load()), args=[ast.Constant(value=a.name)], keywords=[]))
+            self.counts['host_import'] = self.counts.get('host_import', 0) + 1
+            return ast.copy_location(new, node)
+        return node
+
+    def visit_ImportFrom(self, node):
+        if node.level == 0 and node.module in HOST_MODULES and all(a.name != '*' for a in node.names):
+            out = []
+            for a in node.names:
+                out.append(ast.copy_location(ast.Assign(
+                    targets=[ast.Name(id=a.asname or a.name, ctx=ast.Store())],
+                    value=ast.Call(func=ast.Name(id='__sx_host_attr__', ctx=ast.Load()),
+                                   args=[ast.Constant(value=node.module), ast.Constant(value=a.name)], keywords=[])), node))
+            self.counts['host_import'] = self.counts.get('host_import', 0) + len(out)
+            return out
+        return node
 
     def visit_Compare(self, node):
         self.generic_visit(node)
